@@ -5,9 +5,14 @@ import json
 import os
 
 _HERE = os.path.dirname(os.path.abspath(__file__))
-_D = json.load(open(os.path.join(_HERE, "core_kinds_c16.json")))
-_WHAT = {int(k): v for k, v in _D.get("what", {}).items()}
-_KNOWN = {int(k): v for k, v in _D.get("known", {}).items()}
+import glob
+_WHAT = {}
+_KNOWN = {}
+# the reload engine also serves other properties' checkers (e.g. C02 against the configured maximum): all core kind tables
+for _f in sorted(glob.glob(os.path.join(_HERE, "core_kinds*.json"))):
+    _D = json.load(open(_f))
+    _WHAT.update({int(k): v for k, v in _D.get("what", {}).items()})
+    _KNOWN.update({int(k): v for k, v in _D.get("known", {}).items()})
 
 
 def _classify(kind):
